@@ -61,7 +61,7 @@ def stripPrefix (p : String) (cs : List Char) : Option (List Char) :=
   if p.toList.isPrefixOf cs then some (cs.drop p.length) else none
 
 def leafKw : List (String × Ty) :=
-  [("bool", .bool), ("i64", .i64), ("u64", .u64), ("i32", .i32), ("u32", .u32), ("f64", .f64), ("f32", .f32),
+  [("bool", .bool), ("i64", .i64), ("u64", .u64), ("i32", .i32), ("u32", .u32), ("i16", .i16), ("u16", .u16), ("i8", .i8), ("u8", .u8), ("f64", .f64), ("f32", .f32),
    ("str", .str), ("any", .any), ("ign", .ign)]
 
 def splitOnChar (c : Char) (cs : List Char) : List (List Char) :=
